@@ -59,8 +59,17 @@ def run(rep, idx, tier):
         return
     ctor_sig = c.t.sigs[CYC[1]].ctor
     want = c.parse("Signal(range(len(wb.sel) + 1))", env)
-    rep.check(c.norm(ctor_sig) == want, "C10.3", site, "sequencer counts 0 .. number of granules",
-              f"created as {ir.show(c.norm(ctor_sig))}; expected {ir.show(want)}")
+    # Signal(range(N)) holds 0 .. N-1 in ceil_log2(N) bits: the same register spelled by its width is the same register; any other
+    # shape is compared as it stands (a width that is too small truncates the count, a named discrepancy; others undecided)
+    want_w = c.parse("Signal(ceil_log2(len(wb.sel) + 1))", env)
+    got = c.norm(ctor_sig)
+    narrow = {c.parse("Signal(range(len(wb.sel)))", env), c.parse("Signal(ceil_log2(len(wb.sel)))", env),
+              c.parse("Signal(exact_log2(len(wb.sel)))", env)}
+    rep.form(got in (want, want_w), "C10.3", site, "sequencer counts 0 .. number of granules",
+             f"created as {ir.show(got)}; expected {ir.show(want)}",
+             wrong=("the register cannot hold the final state `number of granules`: the count wraps to 0 and the transfer is never acknowledged"
+                    if got in narrow else ("not a plain Signal(range(...)) / Signal(<width>)" if got[0] == 'call' and got[1] == ('name', 'Signal') and
+                                          (got[3] or len(got[2]) != 1) else None)))
     case_k = ('formula', c.eng.frame_formula(('case', sid, (k,), 0)))
     dflt = ('formula', c.eng.frame_formula(('default', sid)))
     Tf = c.eng.cond(c.parse(T, env))
